@@ -215,6 +215,7 @@ class Crazyflie():
         if (self.link is not None):
             self.link.close()
         self.link = None
+        self._cancel_answer_timers()
         if (self.state == State.INITIALIZED):
             self.connection_failed.call(self.link_uri, errmsg)
         elif (self.state == State.CONNECTED or
@@ -284,7 +285,7 @@ class Crazyflie():
         if (self.link is not None):
             self.link.close()
             self.link = None
-        self._answer_patterns = {}
+        self._cancel_answer_timers()
         self.disconnected.call(self.link_uri)
         self.state = State.DISCONNECTED
 
@@ -309,11 +310,29 @@ class Crazyflie():
         """Remove the callback cb on port and channel"""
         self.incoming.remove_header_callback(cb, port, channel, port_mask, channel_mask)
 
-    def _no_answer_do_retry(self, pk, pattern):
+    def _cancel_answer_timers(self):
+        """Stop waiting for answers: nothing is resent once the link is gone"""
+        for timer in self._answer_patterns.values():
+            timer.cancel()
+        self._answer_patterns = {}
+
+    def _start_answer_timer(self, pk, pattern, timeout):
+        """(Re)start the retry timer for pattern, the one it replaces is
+        cancelled"""
+        old_timer = self._answer_patterns.get(pattern)
+        if old_timer is not None:
+            old_timer.cancel()
+        new_timer = Timer(timeout,
+                          lambda: self._no_answer_do_retry(pk, pattern,
+                                                           timeout, new_timer))
+        self._answer_patterns[pattern] = new_timer
+        new_timer.start()
+
+    def _no_answer_do_retry(self, pk, pattern, timeout=0.2, timer=None):
         """Resend packets that we have not gotten answers to"""
         logger.info('Resending for pattern %s', pattern)
-        # Set the timer to None before trying to send again
-        self.send_packet(pk, expected_reply=pattern, resend=True)
+        self.send_packet(pk, expected_reply=pattern, resend=True,
+                         timeout=timeout, _retry_timer=timer)
 
     def _check_for_answers(self, pk):
         """
@@ -336,7 +355,8 @@ class Crazyflie():
             self._answer_patterns[longest_match].cancel()
             del self._answer_patterns[longest_match]
 
-    def send_packet(self, pk, expected_reply=(), resend=False, timeout=0.2):
+    def send_packet(self, pk, expected_reply=(), resend=False, timeout=0.2,
+                    _retry_timer=None):
         """
         Send a packet through the link interface.
 
@@ -357,26 +377,21 @@ class Crazyflie():
                 logger.debug(
                     'Sending packet and expecting the %s pattern back',
                     pattern)
-                new_timer = Timer(timeout,
-                                  lambda: self._no_answer_do_retry(pk,
-                                                                   pattern))
-                self._answer_patterns[pattern] = new_timer
-                new_timer.start()
+                self._start_answer_timer(pk, pattern, timeout)
             elif resend:
                 # Check if we have gotten an answer, if not try again
                 pattern = expected_reply
-                if pattern in self._answer_patterns:
-                    logger.debug('We want to resend and the pattern is there')
-                    if self._answer_patterns[pattern]:
-                        new_timer = Timer(timeout,
-                                          lambda:
-                                          self._no_answer_do_retry(
-                                              pk, pattern))
-                        self._answer_patterns[pattern] = new_timer
-                        new_timer.start()
-                else:
+                pending = self._answer_patterns.get(pattern)
+                if pending is None or (_retry_timer is not None and
+                                       pending is not _retry_timer):
+                    # Answered, replaced by a newer request or the link was
+                    # closed since the timer was started: nothing to resend
                     logger.debug('Resend requested, but no pattern found: %s',
                                  self._answer_patterns)
+                    self._send_lock.release()
+                    return
+                logger.debug('We want to resend and the pattern is there')
+                self._start_answer_timer(pk, pattern, timeout)
             self.link.send_packet(pk)
             self.packet_sent.call(pk)
         self._send_lock.release()
